@@ -411,6 +411,22 @@ func onlySpecifiedRejectionsRule(P *Program, R *Report) {
 		}
 		return "condition " + desc(a.V), false
 	}
+	n = enumerateRejections(P, R, rule, kCLVerify, fn, classify)
+	R.decide(rule, kCLVerify+":rejections", "the rejecting branches were enumerated (>= 4)", n >= 4, fmt.Sprintf("%d", n), P.Pos(fn.Pos()))
+	// the accepting outcome is the equation itself: the only non-constant return is the comparison with Z (C05.b)
+	nEq := 0
+	for _, r := range returnsOf(fn) {
+		if _, isB := boolConst(retValue(r, 0)); !isB {
+			nEq++
+		}
+	}
+	R.decide(rule, kCLVerify+":single-outcome", "exactly one return yields a computed verdict (the equation)", nEq == 1, fmt.Sprintf("%d", nEq), P.Pos(fn.Pos()))
+}
+
+// enumerateRejections classifies every branch that leads directly into a `return false` of fn; one obligation
+// per distinct reason. Returns the number of rejecting branches.
+func enumerateRejections(P *Program, R *Report, rule, key string, fn *ssa.Function, classify func(Atom) (string, bool)) int {
+	n := 0
 	for _, r := range returnsOf(fn) {
 		v, isB := boolConst(retValue(r, 0))
 		if !isB || v {
@@ -428,16 +444,8 @@ func onlySpecifiedRejectionsRule(P *Program, R *Report) {
 			}
 			n++
 			what, ok2 := classify(Atom{Fn: fn, V: iff.Cond, Want: want})
-			R.decide(rule, fmt.Sprintf("%s:reject:%s", kCLVerify, what), "a rejecting branch of Verify is one of the specified reasons", ok2, "rejects on: "+what+" ["+desc(iff.Cond)+" is "+want.String()+"]", P.Pos(condPos(iff)))
+			R.decide(rule, fmt.Sprintf("%s:reject:%s", key, what), "a rejecting branch is one of the specified reasons", ok2, "rejects on: "+what+" ["+desc(iff.Cond)+" is "+want.String()+"]", P.Pos(condPos(iff)))
 		}
 	}
-	R.decide(rule, kCLVerify+":rejections", "the rejecting branches were enumerated (>= 4)", n >= 4, fmt.Sprintf("%d", n), P.Pos(fn.Pos()))
-	// the accepting outcome is the equation itself: the only non-constant return is the comparison with Z (C05.b)
-	nEq := 0
-	for _, r := range returnsOf(fn) {
-		if _, isB := boolConst(retValue(r, 0)); !isB {
-			nEq++
-		}
-	}
-	R.decide(rule, kCLVerify+":single-outcome", "exactly one return yields a computed verdict (the equation)", nEq == 1, fmt.Sprintf("%d", nEq), P.Pos(fn.Pos()))
+	return n
 }
